@@ -1,13 +1,12 @@
 #!/bin/sh
 # usage: check_seed.sh <patch-dir> <property> [extra check args] : run a check against a scratch worktree of /repo HEAD with the
-# patch applied (never touches /repo's working tree). Evidence written by this run is from a modified tree: do not commit it.
+# patch applied (never touches /repo's working tree). Evidence and replay files of this run go to /tmp/chk_out_<label> (PYVC_OUT),
+# not to /verif, because they describe a modified tree.
 D=$1; P=$2; shift 2
-WT=/tmp/chk_$(basename $D)_$$
-git -C /repo worktree add -q $WT HEAD || exit 9
+L=$(basename $(dirname $D/x))_$$
+WT=/tmp/chk_$L
+git -C /repo worktree add -q --detach $WT HEAD || exit 9
 trap 'git -C /repo worktree remove --force $WT 2>/dev/null' EXIT INT TERM
 git -C $WT apply $D/patch.diff || exit 9
-cp /verif/evidence/$P.json /tmp/evidence_backup_$P_$$.json 2>/dev/null
-PYVC_REPO=$WT ./check $P --no-canaries "$@"
-rc=$?
-cp /tmp/evidence_backup_$P_$$.json /verif/evidence/$P.json 2>/dev/null
-exit $rc
+mkdir -p /tmp/chk_out
+PYVC_OUT=/tmp/chk_out PYVC_REPO=$WT ./check $P --no-canaries "$@"
